@@ -102,6 +102,26 @@ func die2(format string, args ...any) int {
 }
 
 // build instruments a scratch copy of the repository's working tree and builds the worker.
+// pruneBuildCache: every check builds the worker against a freshly instrumented copy; for an unchanged tree
+// Go's build cache hits, but every *changed* tree adds a few hundred MB to it, and Go only trims entries after
+// days. When the file system holding the cache runs low (< 8 GB free) the cache is dropped; the next build
+// takes a minute longer.
+func pruneBuildCache() {
+	out, err := exec.Command("go", "env", "GOCACHE").Output()
+	dir := strings.TrimSpace(string(out))
+	if err != nil || dir == "" || dir == "off" {
+		return
+	}
+	var st syscall.Statfs_t
+	if syscall.Statfs(dir, &st) != nil {
+		return
+	}
+	if free := st.Bavail * uint64(st.Bsize); free < 8<<30 {
+		fmt.Fprintf(os.Stderr, "godsim: %d MB free on the file system of the Go build cache: running go clean -cache\n", free>>20)
+		exec.Command("go", "clean", "-cache").Run()
+	}
+}
+
 func build(race bool, withTests bool) (workerBin string, instr *InstrResult, err error) {
 	base := os.Getenv("VERIF_SCRATCH")
 	if base == "" {
@@ -111,6 +131,7 @@ func build(race bool, withTests bool) (workerBin string, instr *InstrResult, err
 	if err != nil {
 		return "", nil, err
 	}
+	pruneBuildCache()
 	sig := make(chan os.Signal, 1)
 	signal.Notify(sig, syscall.SIGINT, syscall.SIGTERM, syscall.SIGHUP)
 	go func() { <-sig; cleanup(); os.Exit(2) }()
@@ -286,6 +307,7 @@ func check(id, tier string) int {
 	violations := 0
 	var lines []string
 	seenSig := map[string]bool{}
+	var unconfirmed []string
 	confirm := func(path string) (int, string) {
 		rl := filepath.Join(scratchRoot, fmt.Sprintf("race-replay-%d", time.Now().UnixNano()))
 		cmd := exec.Command(bin, "-replay", path, "-racelog", rl)
@@ -322,9 +344,11 @@ func check(id, tier string) int {
 				seenSig[sig] = true
 				code, out := confirm(path)
 				if code != 1 {
+					// not reported as a violation. If nothing else is confirmed in this check it ends as
+					// infrastructure trouble (exit 2); a confirmed violation of another signature still counts.
 					cleanupKeepLogs(wr)
-					fmt.Fprintf(os.Stderr, "%s\n", out)
-					return die2("violation found by worker %d did not reproduce from %s in a fresh process (exit %d): harness defect, not reported as a violation", wr.idx, path, code)
+					unconfirmed = append(unconfirmed, fmt.Sprintf("violation found by worker %d did not reproduce from %s in a fresh process (exit %d): not reported as a violation\n%s", wr.idx, path, code, tail(out, 6)))
+					continue
 				}
 				vb, _ := json.Marshal(ev["violation"])
 				lines = append(lines, fmt.Sprintf("VIOLATION property=%s replay=%s", id, path))
@@ -362,6 +386,13 @@ func check(id, tier string) int {
 			violations++
 			exit = 1
 		}
+	}
+	if len(unconfirmed) > 0 && violations == 0 {
+		fmt.Fprintln(os.Stderr, strings.Join(unconfirmed, "\n"))
+		return die2("%d violation(s) found by workers did not reproduce in a fresh process and nothing else was confirmed: harness defect or a failure that depends on state outside the plan", len(unconfirmed))
+	}
+	for _, u := range unconfirmed {
+		fmt.Fprintln(os.Stderr, "godsim: note: "+u)
 	}
 	wall := time.Since(t0).Seconds()
 	if err := writeEvidence(id, tier, seed, info, results, instr, violations, wall, buildS, budget, nw); err != nil {
